@@ -240,6 +240,7 @@ def run(ctx, prog, rule="R-SCAN"):
     ctx.floor(rule, "skipSpacesAndComments", len(fns), 1)
     run_parsed(ctx, prog, rule)
     run_containers(ctx, prog, rule)
+    run_value(ctx, prog, rule)
     ctx.doc(rule, "scanning routines conform to reference automata over character classes (finite-state abstraction, all input strings)")
 
 
@@ -381,3 +382,78 @@ def _run_containers(ctx, prog, rule):
             inst = "%s%s conforms to the %s grammar" % (nm, "[%s]" % fk if fk else "", "array" if "Array" in nm else "object")
             report(ctx, rule, inst, fn, res)
     ctx.floor(rule, "container routines", n, 4)
+
+
+def spec_value():
+    """WS then exactly one of: array on '[', object on '{', string on a quote,
+    true / false / null on t / f / n, number otherwise; the routine's result
+    is that of the selected routine."""
+    def step(s, t):
+        if s == "value":
+            if t == "WS":
+                return ("consume", "value1")
+            return ("stop", {"InvalidInput"})
+        if s == "value1":
+            if isinstance(t, str) and t.startswith("SEL:"):
+                kind, head = t[4:].split("@")
+                head = int(head)
+                want = {ord("["): "array", ord("{"): "object", ord('"'): "string", ord("'"): "string",
+                        ord("t"): "kw:true", ord("f"): "kw:false", ord("n"): "kw:null"}.get(head, "number")
+                if kind == want:
+                    return ("consume-stop", {"Ok"})
+                return ("stop", {"a %s routine is selected for a value that starts like a %s" % (kind, want)})
+            return ("stop", {"InvalidInput"})
+        raise KeyError(s)
+    return step
+
+
+def run_value(ctx, prog, rule="R-SCAN"):
+    from rules import unicode
+    unicode._memo(ctx, prog, "scan-value", ["JsonDeserializer::parseVariant", "JsonDeserializer::skipVariant"],
+                  lambda c_, p_: _run_value(c_, p_, rule))
+
+
+def _run_value(ctx, prog, rule):
+    E = {}
+    for e in prog.enum("DeserializationError::Code"):
+        for c in e["consts"]:
+            E[c["n"]] = int(c["v"])
+    alphabet = sorted({0, 32, ord("["), ord("]"), ord("{"), ord("}"), ord(","), ord('"'), ord("'"), ord("t"), ord("f"), ord("n"),
+                       ord("1"), ord("-"), ord("x"), ord("N"), ord("I")})
+    ANY = ERR_IN | {"NoMemory", "TooDeep"}
+
+    def after_ws(alpha, head):
+        return [h for h in alpha if h not in WSCH and h != 0]
+
+    def anyhead(alpha, head):
+        return list(alpha)
+
+    def sel(kind):
+        def tokfn(f, st, head):
+            k = kind
+            if kind == "kw":
+                lit = None
+                for a in st.get("args", []):
+                    sa = f.s(f.strip(a, casts=True))
+                    if sa["k"] == "StringLiteral":
+                        lit = bytes(sa.get("bytes", [])).rstrip(b"\0").decode("latin1")
+                k = "kw:%s" % lit
+            return "SEL:%s@%d" % (k, head)
+        return tokfn
+    opaque = {"skipSpacesAndComments": ("WS", ERR_IN, after_ws)}
+    for nm, kind in (("parseArray", "array"), ("skipArray", "array"), ("parseObject", "object"), ("skipObject", "object"),
+                     ("parseStringValue", "string"), ("skipQuotedString", "string"), ("skipKeyword", "kw"),
+                     ("parseNumericValue", "number"), ("skipNumericValue", "number")):
+        opaque[nm] = (sel(kind), ANY, anyhead)
+    n = 0
+    for nm in ("parseVariant", "skipVariant"):
+        fns = sorted(prog.q("JsonDeserializer::" + nm), key=lambda f: f.key)
+        chosen = {}
+        for f in fns:
+            fk = "Filter" if ("DeserializationOption::Filter" in f.key and "AllowAllFilter" not in f.key) else "AllowAll"
+            chosen.setdefault(fk if nm.startswith("parse") else "", f)
+        for fk, fn in sorted(chosen.items()):
+            n += 1
+            res = scanfsm.explore2(prog, fn, alphabet, {}, "value", spec_value(), alphabet, E, opaque=opaque, anywhere=("NoMemory", "TooDeep"))
+            report(ctx, rule, "%s%s selects the routine of the value's first character" % (nm, "[%s]" % fk if fk else ""), fn, res)
+    ctx.floor(rule, "value dispatch routines", n, 2)
